@@ -6,6 +6,7 @@
   * `exportChunks`    hwloc_topology_export_synthetic as a chunk list for the cursor machine `Hw.emitAll`
 -/
 import Hw.Io.Synthetic
+import Hw.Io.SyntheticFilter
 namespace Hw.Syn
 open Hw Hw.Topo
 
@@ -29,6 +30,7 @@ structure NLevel where
   mem : List MemChild := []   -- memory children of every object of this level
   os : Option (List Nat) := none   -- (input of orderTopo) the level's index array, by creation number
   osIdx : List Int := []      -- os_index of the objects of this level by logical index (-1 = unknown)
+  virt : Bool := false        -- (input of orderTopo) the level's type is filtered out (KEEP_NONE): its objects are not built
 deriving Repr, DecidableEq
 
 structure Topo where
@@ -76,7 +78,11 @@ def loadable (p : Parsed) : Bool :=
   p.levels.all (fun l => decide (l.attr.mem < 2^62) && decide (l.attr.msc < 2^62) &&
     l.attached.all (fun a => decide (a.mem < 2^62) && decide (a.msc < 2^62))) &&
   decide (pus ≤ 4096) && decide ((p.levels.map (·.width)).sum ≤ 20000) && decide (p.numaNr ≤ 4096) &&
-  p.levels.all (fun l => l.arity < 65536 && (l.idx.arr.getD []).all (· < idxBound)) && (p.numaIdx.arr.getD []).all (· < idxBound)
+  p.levels.all (fun l => l.arity < 65536 && (l.idx.arr.getD []).all (· < idxBound)) && (p.numaIdx.arr.getD []).all (· < idxBound) &&
+  -- the total memory fits the uint64 total_memory fields
+  decide (((List.range n).map (fun i =>
+    let l := p.levels[i]?.getD {}
+    l.width * ((l.attached.map (·.mem)).sum + (if 1 ≤ i ∧ l.attr.type = tNUMA then l.attr.mem else 0)))).sum < 2^62)
 
 /-- a subtree of the regular tree while it is being ordered the way the core orders children (by the
 lowest PU os_index of their cpusets) -/
@@ -134,8 +140,38 @@ def hoist : List NLevel → Option (List NLevel × List MemChild)
         if l.arity = 1 ∧ !m.isEmpty then some ({ l with mem := [] } :: rest', m)
         else some ({ l with mem := m } :: rest', [])
 
+/-- levels whose type is filtered out (KEEP_NONE) are not built: their children go to the level above.  The NUMA nodes
+attached to such a level are inserted all the same, with the cpuset the object would have had; the core attaches them to
+the topmost built non-PU object with that cpuset (the only child of the missing object, or the object above when the missing
+object was its only child), to the root when the cpuset is the root's, and otherwise below a Group (kind MEMORY) that it
+creates in place of the missing object.  `out` = built levels so far (deepest first), `mult` = missing objects per
+object of the last built level; `none` = two levels with the same cpusets carry memory.
+(`l.virt = false` everywhere: `devirt` only multiplies arities by 1.) -/
+def devirt : List NLevel → List NLevel → List MemChild → Nat → List MemChild → Option (List NLevel × List MemChild)
+  | [], out, rm, _, carry => if carry.isEmpty then some (out.reverse, rm) else none
+  | l :: rest, out, rm, mult, carry =>
+    -- `carry` = memory handed down by the missing level just above (this level then has one object per missing object)
+    let a := l.arity * mult
+    if !carry.isEmpty ∧ !l.mem.isEmpty then none else
+    let m := l.mem ++ carry
+    if !l.virt then devirt rest ({ l with arity := a, mem := m } :: out) rm 1 []
+    else if m.isEmpty then devirt rest out rm a []
+    else
+      match rest.head? with
+      | none => none
+      | some c =>
+        if c.arity = 1 ∧ (c.virt ∨ c.type ≠ tPU) then devirt rest out rm a m
+        else if a = 1 then
+          match out with
+          | [] => if rm.isEmpty then devirt rest out m 1 [] else none
+          | q :: out' => if q.mem.isEmpty then devirt rest ({ q with mem := m } :: out') rm 1 [] else none
+        else devirt rest ({ type := tGROUP, arity := a, memGroup := true, mem := m } :: out) rm 1 []
+
 /-- final PU and NUMA os_index sequences of a chain (root arity first) -/
-def orderTopo (rootMem : List MemChild) (levels0 : List NLevel) (pu numa : List Nat) : Topo :=
+def orderTopo (rootMem0 : List MemChild) (levels00 : List NLevel) (pu numa : List Nat) : Topo :=
+  let dv := devirt levels00 [] rootMem0 1 []
+  let levels0 := match dv with | some r => r.1 | none => [{ type := tGROUP, arity := 1 }]
+  let rootMem := match dv with | some r => r.2 | none => []
   -- the topmost object below the root keeps the memory of its run; it also takes the root's memory children
   -- when it is the root's only child (never a PU)
   let bad : List NLevel × List MemChild := ([{ type := tGROUP, arity := 1 }], [])
@@ -158,10 +194,31 @@ def orderTopo (rootMem : List MemChild) (levels0 : List NLevel) (pu numa : List 
     { (levels[j]?.getD { type := 0, arity := 0 }) with os := none, osIdx := root.objs[j + 1]?.getD [] })
   { rootMem := rootMem, levels := levels, puIdx := root.leaves, numaIdx := root.numas.map (fun i => numa[i]?.getD 0) }
 
-/-- the regular tree described by accepted levels; `none` outside the `Regular` class (levels that the
-core merges, reorders or splits: see the comment at each test) -/
-def buildTopo (p : Parsed) : Option Topo :=
-  let L := p.levels
+/-- levels whose type is filtered out and which carry no attached NUMA node simply vanish: the level above gets their
+children (`level[j-1].arity * level[j].arity`); the root and the PU level are never concerned -/
+def dropPlain (f : List Nat) : List Level → List Level
+  | [] => []
+  | [a] => [a]
+  | a :: b :: rest =>
+    match dropPlain f (b :: rest) with
+    | b' :: rest' =>
+      if !keeps f b.attr.type ∧ b.attached = [] ∧ !rest.isEmpty then { a with arity := a.arity * b'.arity } :: rest'
+      else a :: b' :: rest'
+    | [] => [a]
+
+/-- memory-side caches are not built when the MemCache type is filtered out -/
+def dropMsc (L : List Level) : List Level :=
+  L.map (fun l => { l with attr := { l.attr with msc := 0 }, attached := l.attached.map (fun a => { a with msc := 0 }) })
+
+/-- the regular tree that accepted levels load into under the type filters `f` (hwloc_topology_get_type_filter values by
+type); `none` outside the `Regular` class (levels that the core merges, reorders or splits: see the comment at each test) -/
+def buildTopo (f : List Nat) (p : Parsed) : Option Topo :=
+  let mcf := f[tMEMCACHE]?.getD 0
+  let hasMsc := p.levels.any (fun l => (l.attr.type == tNUMA && l.attr.msc != 0) || l.attached.any (·.msc != 0))
+  -- MemCache KEEP_STRUCTURE: not modelled
+  if mcf = fKeepStructure ∧ hasMsc then none else
+  let L0 := if mcf = fKeepNone then dropMsc p.levels else p.levels
+  let L := dropPlain f L0
   let n := L.length
   if n < 2 then none else
   let ar (i : Nat) : Nat := (lvAt L (i)).arity
@@ -169,6 +226,8 @@ def buildTopo (p : Parsed) : Option Topo :=
   let pul := lvAt L (n - 1)
   let puIdx := pul.idx.arr.getD (List.range pul.width)
   if !puIdx.Nodup then none else
+  -- without Groups the core cannot give a NUMA node a parent with its exact cpuset: only memory at the root is modelled
+  let grpNone := !keeps f tGROUP
   -- NUMA level
   let ks := (List.range n).filter (fun i => i ≥ 1 && ty i == tNUMA)
   match ks with
@@ -176,13 +235,15 @@ def buildTopo (p : Parsed) : Option Topo :=
     -- attached NUMA nodes only
     let att := L.map (·.attached.length)
     if (lvAt L (n - 1)).attached ≠ [] then none                     -- attached to PUs: moved to the parent
+    else if grpNone ∧ (L.drop 1).any (fun l => l.attached ≠ []) then none
     else
       let seq := attachSeq att 0 ((List.range (n - 1)).map ar ++ [0])
       let numaIdx := p.numaIdx.arr.getD (List.range seq.length)
       if numaIdx.length ≠ seq.length ∨ !numaIdx.Nodup ∨ !blocksAscending (seq.zip numaIdx) then none else
       let levels := (List.range (n - 1)).map (fun j =>
         let l : Level := lvAt L (j + 1)
-        { nlevelOf l (ar j) with mem := l.attached.map memOf })
+        -- a level that is still here although its type is filtered out carries attached NUMA nodes: see `devirt`
+        { nlevelOf l (ar j) with mem := l.attached.map memOf, virt := !keeps f l.attr.type })
       chainOk (orderTopo ((lvAt L (0)).attached.map memOf) (levels) puIdx numaIdx)
   | [k] =>
     if L.any (fun l => l.attached ≠ []) then none else
@@ -192,6 +253,7 @@ def buildTopo (p : Parsed) : Option Topo :=
     let m := [memOf nl.attr]
     let nn := ar (k - 1)        -- NUMA nodes per parent
     let b := ar k               -- children per NUMA node
+    if grpNone ∧ ¬ (k = 1 ∧ nn = 1) then none else
     let mk (j : Nat) (arity : Nat) (mem : List MemChild) : NLevel := { nlevelOf (lvAt L j) arity with mem := mem }
     let before := ((List.range k).drop 1).map (fun j => mk j (ar (j - 1)) [])
     let after := ((List.range n).drop (k + 2)).map (fun j => mk j (ar (j - 1)) [])
@@ -216,21 +278,29 @@ def buildTopo (p : Parsed) : Option Topo :=
   | _ => none
 where
   /-- levels with identical cpusets (arity 1) must already be in the core's type order and contain no
-  mergeable Group -/
+  mergeable level (a Group, or a type whose filter is KEEP_STRUCTURE) -/
   chainOk (t : Topo) : Option Topo :=
     let ls := t.levels
+    let mergeable (ty : Nat) : Bool := ty == tGROUP || f[ty]?.getD 0 == fKeepStructure
     let ok := (List.range ls.length).all (fun j =>
       let c := ls[j]?.getD { type := 0, arity := 0 }
       let parentT : Option NLevel := if j = 0 then none else ls[j - 1]?
       if c.arity = 1 then
         match parentT with
-        | none => c.type != tGROUP && c.type != tDIE        -- single child of the root
+        | none => !mergeable c.type && c.type != tDIE        -- single child of the root
         | some q =>
           if q.memGroup && c.type == tPU then true
-          else c.type != tGROUP && q.type != tGROUP && c.type != tDIE && q.type != tDIE &&
+          else !mergeable c.type && !mergeable q.type && c.type != tDIE && q.type != tDIE &&
                decide (typeOrder q.type < typeOrder c.type)
       else true)
     if ok then some t else none
+
+/-- number of NUMA nodes of an abstract topology: memory children per object times objects per level -/
+def numaCountFrom (n : Nat) : List NLevel → Nat
+  | [] => 0
+  | l :: rest => n * l.arity * l.mem.length + numaCountFrom (n * l.arity) rest
+
+def numaCount (t : Topo) : Nat := t.rootMem.length + numaCountFrom 1 t.levels
 
 /-! ### hwloc_topology_export_synthetic -/
 
